@@ -14,7 +14,6 @@ mkdir -p $wt/_seed; cp $demo $wt/_seed/
 dn=_seed/$(basename $demo)
 run_demo() {  # $1 = tag
   (cd $wt && PYTHONPATH=$wt setsid timeout -k 2 400 /venv/bin/python $dn > $out.demo_$1.txt 2>&1 < /dev/null; echo "exit=$?" >> $out.demo_$1.txt)
-  rm -f /dev/shm/sem.loky-* 2>/dev/null
 }
 run_demo without
 git -C $wt apply $src/patch.diff || { echo "patch does not apply" > $out.verdict; git -C /repo worktree remove --force $wt; exit 4; }
@@ -23,7 +22,6 @@ run_demo with
 if [ "$mode" = full ]; then
   (cd $wt && PYTHONPATH=$wt setsid timeout -k 5 3300 /venv/bin/python -m pytest -q -p no:cacheprovider --timeout=900 --continue-on-collection-errors --deselect tests/test_loky_module.py::test_cpu_count_cgroup_limit --deselect tests/test_reusable_executor.py::TestTerminateExecutor::test_sigkill_shutdown_leaks_workers > $out.tests.txt 2>&1 < /dev/null; echo "exit=$?" >> $out.tests.txt)
 fi
-rm -f /dev/shm/sem.loky-* 2>/dev/null
 { echo "without: $(grep -E "^exit=" $out.demo_without.txt | tail -1)"; echo "with: $(grep -E "^exit=" $out.demo_with.txt | tail -1)"; echo "compile: $(tail -1 $out.compile.txt)"; [ "$mode" = full ] && echo "tests: $(tail -3 $out.tests.txt | tr '\n' ' ')"; } > $out.verdict
 git -C /repo worktree remove --force $wt
 cat $out.verdict
